@@ -9,12 +9,18 @@
 (*   known deviations    : KD_* of TransformerImpl are kept out of the design check (GuardP /       *)
 (*                         GuardE) and shown real by DeviationsAreReal                              *)
 (*   generator           : `hist` is the shortest call history reaching each view; the VIEW hides   *)
-(*                         hist / oracle / last / acc but keeps the implementation-shaped state m    *)
-(*                         and `resid` - the (stylesheet, outcome class) of the previous             *)
-(*                         transformation, i.e. what WOULD be left in the execution context if a     *)
-(*                         reset were missed - so that every (previous transformation, next call)    *)
-(*                         combination has its own history although the abstract machine, rightly,   *)
-(*                         cannot tell them apart.  `tlc -dump` writes the states out.               *)
+(*                         hist / oracle / last / acc but keeps                                      *)
+(*                          - the implementation-shaped state m (parameter holders with both slots,  *)
+(*                            the message buffer, "map was used and emptied again" ghosts),          *)
+(*                          - `resid`: stylesheet, how it was passed (handle / inline), source and   *)
+(*                            outcome class of the previous transformation - what WOULD be left in   *)
+(*                            the execution context if a reset were missed,                          *)
+(*                          - `prev`: resid before the last call, when that call is an observer      *)
+(*                         so that every (what an earlier transformation could have left behind,     *)
+(*                         next call) combination has its own history although the abstract machine, *)
+(*                         rightly, cannot tell them apart.  `tlc -dump` writes the states out.      *)
+(*                         The outcome classes of `resid` over all dumped states are the vacuity     *)
+(*                         check of tools/props/c06.py: every class of TransformerPool must occur.   *)
 EXTENDS Transformer, TransformerImpl
 
 CONSTANTS MaxHist,        \* length of the call histories
@@ -30,7 +36,7 @@ VARIABLES m, resid, prev, hist, last, acc
 
 mcvars == <<vars, m, resid, prev, hist, last, acc>>
 LastCall == IF hist = <<>> THEN [op |-> "init"] ELSE hist[Len(hist)]
-NoResid == [ss |-> "none", class |-> "none"]
+NoResid == [ss |-> "none", class |-> "none", via |-> "none", src |-> "none"]
 (* prev = resid before the last call: kept in the view when that call was a transformation (the observer of a leak) *)
 (* and ran one of the state-heavy stylesheets S1..S4 on a well-formed source                                        *)
 Observer(c) == /\ c.op = "Transform"
@@ -82,7 +88,8 @@ DoTransform(ssRef, srcRef) ==
       known == key \in DOMAIN oracle
   IN /\ (GuardE => ~KD_staleErrorTransform(m, srcRef, r.ev.status))
      /\ Do(r, IF known THEN St ELSE f.st, known \/ f.ok)
-     /\ resid' = [ss |-> ssDoc, class |-> Class(ssDoc, srcDoc, EffParams(m), m.functions)]
+     /\ resid' = [ss |-> ssDoc, class |-> Class(ssDoc, srcDoc, EffParams(m), m.functions),
+                   via |-> ssRef.k, src |-> srcDoc]
 
 MCNext ==
   /\ Len(hist) < MaxHist
